@@ -535,6 +535,8 @@ def run(ctx):
     ctx.count('digital equity: 2 types x call/put (parity, expectation)', n_d * 4, n_d * 4)
 
     run_more(ctx, locals())
+    from props import c11_reuse
+    c11_reuse.run(ctx, locals())      # one object, several markets: value must not depend on pricing history
 
     # ================================================================== correspondence: one driver run for all ops
     model_out = None
